@@ -124,7 +124,10 @@ func vfGenC22(t *rapid.T) *vfC22Case {
 		avail = append(avail, clBlFrom, clBlTo, clBlEvmCall, clBlEvmPara)
 	}
 	if headEth {
-		avail = append(avail, clNonceLow, clNoncePending, clNonceLow, clNoncePending)
+		avail = append(avail, clNoncePending, clNoncePending)
+		if c.CurNonce > 0 {
+			avail = append(avail, clNonceLow, clNonceLow)
+		}
 	}
 	k := pick([]int{0, 1, 1, 1, 1, 1, 1, 2, 2, 3}, "nviol")
 	used := map[string]bool{}
@@ -146,20 +149,20 @@ func vfGenC22(t *rapid.T) *vfC22Case {
 			key = v.Clause
 		}
 		stateOnly := v.Clause == clInPool || v.Clause == clOnChain || v.Clause == clAtLimit
-		if used[key] || (used[clInPool] && !stateOnly) || (v.Clause == clInPool && len(c.Violations) > 0) {
+		// a blacklisted head sender can have nothing pooled, so it cannot also be at its limit or have a pending nonce
+		needsPooledSender := v.Clause == clAtLimit || v.Clause == clNoncePending
+		if used[key] || used[v.Clause] || (used[clInPool] && !stateOnly) || (v.Clause == clInPool && len(c.Violations) > 0) ||
+			(needsPooledSender && used["from/0"]) || (key == "from/0" && (used[clAtLimit] || used[clNoncePending])) {
 			k-- // conflicting draw: settle for fewer violations
 			continue
 		}
-		if v.Clause == clNonceLow && c.CurNonce == 0 {
-			c.CurNonce = 1 + int64(v.Variant)
-			for i := range c.Prefill { // keep the prefill above the current nonce
-				if vfSenders[c.Prefill[i].Sender].eth {
-					c.Prefill[i].Nonce += c.CurNonce
-				}
-			}
-		}
-		used[key] = true
+		used[key], used[v.Clause] = true, true
 		c.Violations = append(c.Violations, v)
+	}
+	for i := range c.Violations { // the re-wrapped duplicate needs T pooled first, so it is only drawn on its own
+		if c.Violations[i].Clause == clWrapper && c.Violations[i].Variant == 2 && len(c.Violations) > 1 {
+			c.Violations[i].Variant = 0
+		}
 	}
 	sort.Slice(c.Violations, func(i, j int) bool { return c.Violations[i].Clause < c.Violations[j].Clause })
 	return c
@@ -201,7 +204,7 @@ func vfRunC22(c *vfC22Case) vfC22Outcome {
 		rate *= 10
 	}
 	for _, s := range c.Prefill {
-		s.Fee = 10 * rate
+		s.Fee = 10*rate + int64(s.Sender) // the hash does not cover the signer: keep equal-nonce transactions of two senders distinct
 		mustAdmit(vfBuildTx(e.cfg, s), "prefill transaction")
 	}
 
@@ -240,18 +243,22 @@ func vfRunC22(c *vfC22Case) vfC22Outcome {
 			m.Nonce = []int64{c.CurNonce - 1, 0, c.CurNonce - 1}[v.Variant]
 		}
 	}
-	if v := has[clNoncePending]; v != nil { // another pooled transaction of the sender carries the nonce T' will carry
+	tweaked := false // does T' differ from T in a signed field or a member signature?
+	for _, v := range c.Violations {
+		switch v.Clause {
+		case clInPool, clOnChain, clAtLimit, clNoncePending, clWrapper:
+		default:
+			tweaked = true
+		}
+	}
+	// T itself is pooled first for "already in pool" and for the re-wrapped duplicate of an otherwise valid group
+	prePool := has[clInPool] != nil || (has[clWrapper] != nil && has[clWrapper].Variant == 2 && !tweaked)
+	if has[clNoncePending] != nil { // another pooled transaction of the sender carries the nonce T' will carry
 		p := bad[0]
 		p.To, p.Evm, p.Expire, p.BadTo, p.Fee = (specs[0].To+1)%3, 0, 0, "", 10*rate
-		if has[clNonceLow] != nil { // the pending one must itself be admissible: park it on a fresh nonce, move T' onto it
-			lib.Inconclusive("generator produced nonce_low together with nonce_pending")
-		}
-		if has[clBlFrom] != nil { // T' is signed by the blacklisted eth account, which can have nothing pooled
-			lib.Inconclusive("generator produced blacklist_from together with nonce_pending")
-		}
 		mustAdmit(vfBuildTx(e.cfg, p), "pending same-nonce transaction")
 	}
-	if v := has[clAtLimit]; v != nil { // fill the (head) sender up to the limit with unrelated transactions
+	if has[clAtLimit] != nil { // fill the (head) sender up to the limit with unrelated transactions
 		head := bad[0].Sender
 		have := int64(0)
 		for _, it := range e.entries() {
@@ -259,7 +266,7 @@ func vfRunC22(c *vfC22Case) vfC22Outcome {
 				have++
 			}
 		}
-		if has[clInPool] != nil {
+		if prePool {
 			have++ // T itself will be pooled below
 		}
 		for j := int64(0); have < c.PerAcc; j, have = j+1, have+1 {
@@ -271,18 +278,10 @@ func vfRunC22(c *vfC22Case) vfC22Outcome {
 	if v := has[clSig]; v != nil {
 		tamper = func(g *types.Transactions) { vfBreakSignature(g.Txs[v.Member], bad[v.Member].Sender, v.Variant) }
 	}
-	tweaked := false
-	for _, v := range c.Violations {
-		switch v.Clause {
-		case clInPool, clOnChain, clAtLimit, clNoncePending, clWrapper:
-		default:
-			tweaked = true
-		}
-	}
 	if tweaked {
 		submission = vfC22Build(e, bad, badFee, c.Grind, tamper)
 	}
-	if v := has[clInPool]; v != nil {
+	if prePool {
 		mustAdmit(valid.tx, "first submission of T")
 	}
 	if v := has[clWrapper]; v != nil {
@@ -294,9 +293,6 @@ func vfRunC22(c *vfC22Case) vfC22Outcome {
 			w.Signature.Pubkey = vfSenders[(bad[0].Sender+1)%3].priv.PubKey().Bytes()
 			w.Signature.Ty = vfSenders[(bad[0].Sender+1)%3].ty
 		case 2: // the pooled group once more under a re-labelled wrapper (so the wrapper hash differs)
-			if !tweaked && has[clInPool] == nil {
-				mustAdmit(valid.tx, "first submission of the group")
-			}
 			w.Nonce += 7
 		}
 		submission = &vfBuilt{tx: w, members: submission.members}
@@ -323,10 +319,9 @@ func vfRunC22(c *vfC22Case) vfC22Outcome {
 	if len(c.Violations) == 0 && !entered {
 		lib.Inconclusive("C22 control: an unviolated submission was rejected: %s (case %+v)", msg, *c)
 	}
-	if len(c.Violations) > 0 && !entered && !tweaked && has[clWrapper] == nil {
-		// state-made violation: nothing to repair
-	} else if len(c.Violations) > 0 && !entered && has[clInPool] == nil && has[clOnChain] == nil && has[clAtLimit] == nil && has[clNoncePending] == nil &&
-		!(has[clWrapper] != nil && has[clWrapper].Variant == 2) {
+	stateMade := has[clInPool] != nil || has[clOnChain] != nil || has[clAtLimit] != nil || has[clNoncePending] != nil ||
+		(has[clWrapper] != nil && has[clWrapper].Variant == 2)
+	if len(c.Violations) > 0 && !entered && !stateMade {
 		// control for transaction-made violations: the untransformed T must be admissible in this very state, so the
 		// rejection above is due to the violated clause(s) and not to an accident of the fixture
 		if ok2, msg2 := e.submit(valid.tx); !ok2 {
@@ -395,21 +390,30 @@ func (c *vfC22Case) classes() (shape string, single bool) {
 	return shape, len(c.Violations) == 1
 }
 
-// vfKnownC22 reports whether an admitted violating case matches the signature of a listed known finding.
+// vfKnownC22 reports whether an admitted violating case is fully explained by listed known findings: every violated
+// clause must be one that a listed finding lets through, otherwise the case is a new violation.
+//   - wrapper finding: the wrapper clause itself, plus the two eth nonce clauses, which the code evaluates on the
+//     unverified wrapper's own signature type and nonce;
+//   - header finding: an expiry clause of a member of a group whose header was ground to parse as protobuf.
 func vfKnownC22(c *vfC22Case) string {
-	if len(c.Violations) == 1 && c.Violations[0].Clause == clWrapper && lib.Known(vfFindingWrapper) {
-		return vfFindingWrapper
+	id, wrapper := "", false
+	for _, v := range c.Violations {
+		wrapper = wrapper || v.Clause == clWrapper
 	}
-	// expiry of a group member, group header ground to parse as protobuf, nothing else violated
-	if c.Grind && len(c.Tx) > 1 && lib.Known(vfFindingExpHdr) {
-		for _, v := range c.Violations {
-			if v.Clause != clExpHeight && v.Clause != clExpTime {
-				return ""
+	for _, v := range c.Violations {
+		switch {
+		case v.Clause == clWrapper && lib.Known(vfFindingWrapper):
+			id = vfFindingWrapper
+		case (v.Clause == clNonceLow || v.Clause == clNoncePending) && wrapper && lib.Known(vfFindingWrapper):
+		case (v.Clause == clExpHeight || v.Clause == clExpTime) && c.Grind && len(c.Tx) > 1 && lib.Known(vfFindingExpHdr):
+			if id == "" {
+				id = vfFindingExpHdr
 			}
+		default:
+			return ""
 		}
-		return vfFindingExpHdr
 	}
-	return ""
+	return id
 }
 
 func TestPropAdmission(t *testing.T) {
@@ -446,4 +450,34 @@ func TestPropAdmission(t *testing.T) {
 			lib.NonTrivialCase(c)
 		}
 	})
+}
+
+// ---------------------------------------------------------------- pinned cases of the genuine defects found
+
+// Minimal case: a valid two-member group (both members correctly signed) whose wrapper transaction carries a
+// signature that does not verify. The property demands rejection ("every signature verifies").
+func TestKnown_GroupWrapperUnverified(t *testing.T) {
+	defer lib.Flush()
+	vfInitSenders()
+	for variant := 0; variant <= 1; variant++ {
+		c := &vfC22Case{Height: 10, BlockTime: vfBaseTime, PerAcc: 3, Tx: []vfTxSpec{{Sender: 0, To: 1, Nonce: 1}, {Sender: 1, To: 0, Nonce: 2}},
+			Violations: []vfViolation{{Clause: clWrapper, Variant: variant}}}
+		if out := vfRunC22(c); out.entered {
+			lib.KnownOrViolation(t, "C22", "TestKnown_GroupWrapperUnverified", vfFindingWrapper, c,
+				"a group whose wrapper transaction has an invalid signature (or claims another account's public key) is admitted: only the members inside Header are verified, the wrapper that is pooled and indexed by its From() never is")
+		}
+	}
+}
+
+// Minimal case: a two-member group whose second member is expired for the next block, with the last member's nonce
+// chosen so that the 32-byte group header happens to be well-formed protobuf.
+func TestKnown_GroupExpirySkippedWhenHeaderParses(t *testing.T) {
+	defer lib.Flush()
+	vfInitSenders()
+	c := &vfC22Case{Height: 10, BlockTime: vfBaseTime, PerAcc: 3, Grind: true, Tx: []vfTxSpec{{Sender: 0, To: 1, Nonce: 1}, {Sender: 1, To: 0, Nonce: 2}},
+		Violations: []vfViolation{{Clause: clExpHeight, Member: 1, Variant: 1}}}
+	if out := vfRunC22(c); out.entered {
+		lib.KnownOrViolation(t, "C22", "TestKnown_GroupExpirySkippedWhenHeaderParses", vfFindingExpHdr, c,
+			"an expired group member is admitted when the group's 32-byte header parses as protobuf: checkTx -> IsExpire calls GetTxGroup on the member, which decodes that hash as an (empty) group and skips the member's own expiry")
+	}
 }
